@@ -61,7 +61,7 @@ type scenario struct {
 }
 
 func (s scenario) String() string {
-	return fmt.Sprintf("backend=%s wrapper=%s precreate=%v kinds=%v plan=%v", s.Backend, s.Wrapper, s.Seed, s.Kinds, s.Plan)
+	return fmt.Sprintf("backend=%s wrapper=%s precreate=%v kinds=%v plan=%v delete_at=%d", s.Backend, s.Wrapper, s.Seed, s.Kinds, s.Plan, s.DeleteAt)
 }
 
 type env struct {
@@ -667,6 +667,68 @@ func TestCASSchedulesExhaustive(t *testing.T) {
 		}
 	}
 	vx.Exhaustive("every start/release schedule of the listed 2-caller workloads on each backend, with and without a pre-existing key (see notes for cut-offs)")
+}
+
+// TestPurgedKeySchedulesExhaustive: the gossip store, every start/release schedule of two small workloads,
+// with the key deleted and its deletion marker purged after the 1st..4th step (regression for F14: versions
+// that start again after the purge let a caller that read the key before succeed on a re-created key).
+func TestPurgedKeySchedulesExhaustive(t *testing.T) {
+	var rc scenario
+	if vx.ReplayCase("TestPurgedKeySchedulesExhaustive", &rc) {
+		if out := execute(t, rc); out.failure != "" {
+			t.Fatalf("replay: %s\n%s", out.failure, rc)
+		}
+		return
+	}
+	kindSets := [][][]string{{{"inc"}, {"inc"}}, {{"inc", "inc"}, {"inc"}}}
+	idx := 0
+	for _, seed := range []bool{true, false} {
+		for ki, kinds := range kindSets {
+			for del := 1; del <= 4; del++ {
+				idx++
+				if !vx.Mine(idx) {
+					continue
+				}
+				plan := []int{}
+				explored := 0
+				for {
+					sc := scenario{Backend: "memberlist", Wrapper: "bare", Kinds: kinds, Plan: plan, Seed: seed, DeleteAt: del}
+					out := execute(t, sc)
+					explored++
+					vx.Eval(1)
+					if out.deletes > 0 {
+						vx.NonTrivial(vx.FP("purge", seed, ki, del, fmt.Sprint(plan)))
+					}
+					if out.failure != "" {
+						vx.Failf(t, "TestPurgedKeySchedulesExhaustive", sc, "%s\n%s", out.failure, sc)
+					}
+					if out.incomplete {
+						t.Fatalf("schedule did not terminate: %s", sc)
+					}
+					full := make([]int, len(out.branching))
+					copy(full, plan)
+					i := len(full) - 1
+					for ; i >= 0; i-- {
+						if full[i]+1 < out.branching[i] {
+							full[i]++
+							full = full[:i+1]
+							break
+						}
+					}
+					if i < 0 {
+						break
+					}
+					plan = full
+					if explored > 3000 {
+						vx.Note("exploration of precreate=%v kinds=%v delete_at=%d cut at %d schedules", seed, kinds, del, explored)
+						break
+					}
+				}
+				vx.Class("exhaustive_schedules_with_a_purge", explored)
+			}
+		}
+	}
+	vx.Exhaustive("gossip store: every start/release schedule of {one increment each; two and one} by two callers, with and without a pre-existing key, the key deleted and purged after the 1st, 2nd, 3rd or 4th step")
 }
 
 // TestCASStress: un-gated callers on OS threads (no bubble): the store's own locking is exercised.
